@@ -5,6 +5,7 @@ import (
 	"path/filepath"
 	"runtime"
 	"sort"
+	"strings"
 	"testing"
 
 	"github.com/google/uuid"
@@ -30,7 +31,61 @@ func genCase(t *rapid.T) gen.History {
 		ho.MaxSteps = 40
 		ho.MaxBatch = 30
 	}
-	return gen.GenHistory(t, so, ho)
+	h := gen.GenHistory(t, so, ho)
+	// merged documents exactly at, one below and one above the per-point size limit (the limit applies to
+	// the merged document of an update; it is small in a third of the histories)
+	if h.MaxPointSize < 1<<20 {
+		m := model.NewCollection(h.Schema, h.MaxPointSize)
+		apply := func(mm *model.Collection, st gen.Step) {
+			before := mm.Clone()
+			reason := ""
+			switch st.Kind {
+			case "insert":
+				reason = mm.Insert(st.Points)
+			case "update":
+				_, reason = mm.Update(st.Points)
+			case "delete":
+				mm.Delete(st.Ids)
+			}
+			if reason != "" {
+				*mm = *before
+			}
+		}
+		for si := range h.Steps {
+			st := &h.Steps[si]
+			if st.Kind == "update" && len(st.Points) > 0 && rapid.IntRange(0, 1).Draw(t, fmt.Sprintf("edge%d", si)) == 0 {
+				pi := rapid.IntRange(0, len(st.Points)-1).Draw(t, fmt.Sprintf("edgep%d", si))
+				id := st.Points[pi].Id
+				if _, stored := m.Docs[id]; stored {
+					target := h.MaxPointSize + rapid.IntRange(-1, 1).Draw(t, fmt.Sprintf("edged%d", si))
+					// size of the merged document as a function of the pad length (monotone): find the target
+					sizeWith := func(padLen int) (int, model.Doc) {
+						doc := model.CloneDoc(st.Points[pi].Doc)
+						doc["pad"] = strings.Repeat("p", padLen)
+						big := model.NewCollection(h.Schema, 1<<30)
+						big.Docs[id] = model.CloneDoc(m.Docs[id])
+						big.Update([]model.Point{{Id: id, Doc: doc}})
+						return len(model.Encode(big.Docs[id])), doc
+					}
+					lo, hi := 0, target+8
+					for lo < hi {
+						mid := (lo + hi) / 2
+						if n, _ := sizeWith(mid); n < target {
+							lo = mid + 1
+						} else {
+							hi = mid
+						}
+					}
+					if n, doc := sizeWith(lo); n == target {
+						st.Points[pi] = model.Point{Id: id, Doc: doc}
+						st.Note = ""
+					}
+				}
+			}
+			apply(m, *st)
+		}
+	}
+	return h
 }
 
 func idStrings(ids []uuid.UUID) []string {
